@@ -1,12 +1,14 @@
 #!/bin/sh
 # independent re-check of every compiled property file with coqchk; prints the axioms each depends on
-cd "$(dirname "$0")/../coq" || exit 1
-python3 -c "
-import sys; sys.path.insert(0,"..")
+cd "$(dirname "$0")/.." || exit 1
+python3 - <<'PY'
+import sys
+sys.path.insert(0, '.')
 from lib import common as C
 ok, log = C.run_gen(); print('gen', ok)
 ok, log = C.coq_build(); print('full build', ok, C.failed_files(log))
-"
+PY
+cd coq || exit 1
 for f in Properties/C*.vo Properties/GenAgree*.vo; do
   m=$(echo $f | sed 's/\.vo$//; s/\//./g')
   echo "== $m"
